@@ -71,6 +71,13 @@ def fidelity(args):
             open(os.path.join(bindir, name + '.rs'), 'w').write(src)
             bins.append(name)
     t0 = time.time()
+    # content-based rebuild trigger for the crates built from /repo (see sync_repo_build in bin/verif)
+    import importlib.machinery, importlib.util
+    _l = importlib.machinery.SourceFileLoader('verif_driver', os.path.join(ROOT, 'bin', 'verif'))
+    _spec = importlib.util.spec_from_loader('verif_driver', _l)
+    _m = importlib.util.module_from_spec(_spec)
+    _l.exec_module(_m)
+    _m.sync_repo_build(fid)
     p = subprocess.run(['cargo', 'build', '--offline', '-p', 'fcorpus', '--bins'], cwd=fid, env=dict(ENV, CARGO_NET_OFFLINE='true'),
                        stdout=subprocess.PIPE, stderr=subprocess.PIPE, text=True)
     if p.returncode != 0:
